@@ -192,12 +192,21 @@ def updateTsAndSlot (o : Oracle) (v : Validator) : Except VErr Oracle :=
   | .ok none => .ok o
   | .ok (some (s, mn, mx)) => .ok { o with minSlot := s, minTs := mn, maxTs := mx, cleared := false }
 
-/-- one token of a price batch, after feed parsing. -/
+/-- what kind of account was passed as the feed (`parse_from_feed_account` looks at the OWNER):
+a store-owned custom `PriceFeed` (which carries its own provider field), an account owned by the
+Pyth receiver, by Switchboard, or by anybody else. -/
+inductive Acct where
+  | custom | pyth | switchboard | foreign
+  deriving Repr, DecidableEq
+
+/-- one token of a price batch, after feed parsing. Provider numbering = `PriceProviderKind`
+(0 ChainlinkDataStreams, 1 Pyth, 2 Chainlink, 3 Switchboard). -/
 structure Feed where
   token : Nat
   enabled : Bool
   expectedProvider : Nat
-  provider : Nat
+  provider : Nat            -- the provider field stored IN a custom feed (unused for other kinds)
+  acct : Acct := .custom
   feedMatches : Bool
   allowAdjust : Bool
   cfg : FeedCfg
@@ -206,6 +215,16 @@ structure Feed where
   price : Price
   ref : Option Dec
   deriving Repr, DecidableEq
+
+/-- the provider an account stands for: `from_program_id(owner)` for Pyth / Switchboard accounts,
+the stored provider field for a store-owned custom feed, none for any other owner
+(`InvalidPriceFeedAccount`). -/
+def Feed.prov (fd : Feed) : Option Nat :=
+  match fd.acct with
+  | .custom => some fd.provider
+  | .pyth => some 1
+  | .switchboard => some 3
+  | .foreign => none
 
 /-- the price that goes on to validation: adjusted when allowed, configured and applicable
 (`parse_from_feed_account` tail). -/
@@ -220,9 +239,18 @@ def maybeAdjust (U : Nat) (fd : Feed) : Price :=
 def setOne (U : Nat) (ov : Oracle × Validator) (fd : Feed) : Except VErr (Oracle × Validator) :=
   let (o, v) := ov
   if !fd.enabled then .error .disabled
-  else if fd.expectedProvider ≠ fd.provider then .error .provider
+  else match fd.prov with
+  | none => .error .feed
+  | some pv =>
+  -- site A: `PriceFeed::check_and_get_price` compares the expected provider for CUSTOM feeds only
+  if fd.acct = .custom ∧ fd.expectedProvider ≠ pv then .error .provider
+  -- site B: `parse_from_feed_account` compares it for every account kind
+  else if fd.expectedProvider ≠ pv then .error .provider
   else if !fd.cfg.found then .error .notFound
   else if !fd.feedMatches then .error .feed
+  -- a custom feed is only decoded for ChainlinkDataStreams; any other provider branch re-reads
+  -- the account as that provider's own format and fails on the owner
+  else if fd.acct = .custom ∧ pv ≠ 0 then .error .feed
   else
     let p := maybeAdjust U fd
     match validateOne U v fd.cfg fd.oracleTs fd.slot p fd.ref with
